@@ -226,6 +226,8 @@ type State struct {
 	fresh     int
 	access   []AccessRec
 	track    int // heap object id whose reachable accesses are recorded (C10); 0 = off
+	trackInfo *trackInfo
+	jsGlobals map[string]Value
 	writes   []*StrV
 }
 
@@ -250,6 +252,8 @@ func (s *State) fork() *State {
 		clock:   s.clock,
 		env:     s.env,
 		track:   s.track,
+		trackInfo: s.trackInfo,
+		jsGlobals: s.jsGlobals,
 		access:  append([]AccessRec(nil), s.access...),
 		writes:  append([]*StrV(nil), s.writes...),
 	}
